@@ -438,3 +438,14 @@ def checkpoint_error_classification(chk, prefix="C06"):
 def zint_(v):
     from pyvc.values import zint
     return zint(v) if v is not None else z3.IntVal(0)
+
+
+def control_signals_not_exceptions(chk, prefix):
+    """BackgroundThreadError, SuspendExecution (and TimedSuspendExecution), OrphanedChildException derive from BaseException and NOT from Exception
+    (read from exceptions.py): user code's `except Exception` cannot swallow a checkpoint failure, a suspension or an orphan signal"""
+    from pyvc.loader import Program
+    P = Program()
+    for name in ("BackgroundThreadError", "SuspendExecution", "TimedSuspendExecution", "OrphanedChildException"):
+        c = P.cls("exceptions." + name)
+        chk.prove(f"{prefix}.exceptions.control_signals_bypass_except_exception", [], bool(c.is_subclass_of("ext:BaseException") and not c.is_subclass_of("ext:Exception")),
+                  desc="SDK control signals are BaseExceptions that are not Exceptions, so handlers written with `except Exception` let them through to the wrapper")
